@@ -70,6 +70,9 @@ func policies() []namedPolicy {
 		{"th3of5", &ad.Policy{Kind: "threshold", T: 3, IDs: []uint64{1, 2, 3, 4, 5}}},
 		{"th2of3sparse", &ad.Policy{Kind: "threshold", T: 2, IDs: []uint64{bigID, 7, 1000003}}}, // unsorted, sparse, large
 		{"unan3", &ad.Policy{Kind: "unanimity", IDs: []uint64{5, 2, 9}}},
+		// replicated 2-of-3: maximal unqualified sets {1},{2},{3}; every holder owns two rows and any two holders hold one EQUAL share
+		// component (holder i gets r_j for every j # i)
+		{"cnf3", &ad.Policy{Kind: "cnf", IDs: []uint64{1, 2, 3}, MUS: [][]uint64{{1}, {2}, {3}}}},
 		// maximal unqualified sets {1,2},{3,4},{1,4}: holders 2 and 3 own two MSP rows each (non-ideal)
 		{"cnf4", &ad.Policy{Kind: "cnf", IDs: []uint64{1, 2, 3, 4}, MUS: [][]uint64{{1, 2}, {3, 4}, {1, 4}}}},
 		// 2-of-(1, 2, AND(3, 1)): holder 1 appears in two leaves
